@@ -227,7 +227,7 @@ func refOfTraks(ts []trakT) trakT {
 type multiOpts struct {
 	big      bool // virtual mdat boxes: segment sizes around 2^31 / 2^32
 	bigDur   bool // sample durations up to 2^32-1
-	dupTrafs bool // two trafs of one track in a moof (corr only: the oracle's EPT ground truth has no rule for it)
+	dupTrafs bool // two trafs of one track in a moof, the second with a base time of its own
 	skew     bool // data offsets that do not point at the first payload byte (re-encoding observations only)
 }
 
@@ -587,8 +587,12 @@ func searchMulti(l *layout) {
 func searchMultiAll(g *gen, n int) {
 	for i := 0; i < n; i++ {
 		switch i % 4 {
-		case 0, 1:
+		case 0:
 			searchMulti(g.multi(multiOpts{}))
+		case 1:
+			// two trafs of the reference track in one moof (the second with a base time of its own): durations add up, the
+			// presentation time is that of the first of them that holds a sample
+			searchMulti(g.multi(multiOpts{dupTrafs: true}))
 		case 2:
 			searchMulti(g.multi(multiOpts{bigDur: true}))
 		default:
